@@ -222,14 +222,14 @@ def build(T):
     t32('PushT3', '11111 000 0100 1101 Rt:4 1 101 00000100', 'Push', stack(lambda f: 1 << f['Rt'], True), unpred=lambda f, c: badreg(f['Rt']))
     t32('PopThumbT3', '11111 000 0101 1101 Rt:4 1 011 00000100', 'PopThumb', stack(lambda f: 1 << f['Rt'], True),
         unpred=lambda f, c: lor(f['Rt'] == 13, land(f['Rt'] == 15, c.in_it_block(), lnot(c.last_in_it_block()))))
-    # RFE / SRS (two words, straight-line: specified at step level)
+    # RFE / SRS (two words, straight-line: specified at step level); RFE is also one of the exception returns of C12
     it_np = lambda c: land(c.in_it_block(), lnot(c.last_in_it_block()))
     T.add('RfeA1', 'arm', '1111 100 P U 0 W 1 Rn:4 (0000) (1010) (00000000)',
-          lambda cpu, f: rfe(cpu, f['Rn'], f['U'] == 1, f['P'] == f['U'], f['W'] == 1), family='C03', unpred=lambda f, c: f['Rn'] == 15)
+          lambda cpu, f: rfe(cpu, f['Rn'], f['U'] == 1, f['P'] == f['U'], f['W'] == 1), family='C03+C12', unpred=lambda f, c: f['Rn'] == 15)
     T.add('RfeT1', 't32', '11101 00 000 W 1 Rn:4 (1100) (0000) (0000) (0000)',
-          lambda cpu, f: rfe(cpu, f['Rn'], False, False, f['W'] == 1), family='C03', unpred=lambda f, c: lor(f['Rn'] == 15, it_np(c)))
+          lambda cpu, f: rfe(cpu, f['Rn'], False, False, f['W'] == 1), family='C03+C12', unpred=lambda f, c: lor(f['Rn'] == 15, it_np(c)))
     T.add('RfeT2', 't32', '11101 00 110 W 1 Rn:4 (1100) (0000) (0000) (0000)',
-          lambda cpu, f: rfe(cpu, f['Rn'], True, False, f['W'] == 1), family='C03', unpred=lambda f, c: lor(f['Rn'] == 15, it_np(c)))
+          lambda cpu, f: rfe(cpu, f['Rn'], True, False, f['W'] == 1), family='C03+C12', unpred=lambda f, c: lor(f['Rn'] == 15, it_np(c)))
     T.add('SrsArmA1', 'arm', '1111 100 P U 1 W 0 (1101) (0000) (0101) (000) mode:5',
           lambda cpu, f: srs(cpu, f['mode'], f['U'] == 1, f['P'] == f['U'], f['W'] == 1), family='C03')
     T.add('SrsThumbT1', 't32', '11101 00 000 W 0 (1101) (1100) (0000) (000) mode:5',
